@@ -7,8 +7,8 @@ own = json.load(open(os.path.join(ROOT, "selftest", "own_results.json")))
 notkept = json.load(open(os.path.join(ROOT, "selftest", "not_kept.json"))) if os.path.exists(os.path.join(ROOT, "selftest", "not_kept.json")) else []
 out = []
 out.append("## 11. Which checks catch which changes (catch matrix)\n")
-out.append("Every row below was produced by `selftest/final_matrix.sh`: each change applied to a scratch copy of `/repo`'s root\npackage, the pinned suite confirmed green, then the quick checks run against the copy (`VERIF_SEED=1`): **all 20 checks** for the own mutants and the two latest\nsub-agent rounds, the checks of the target property's family (flow C01–C05, C10, C18, C19 / batch and pool C06–C09, C11, C12,\nC17, C20 / store C13–C16) for the earlier rounds (a full matrix of 460 changes x 20 checks does not fit the time budget; rounds 1 and 2 were run\nagainst all 20 checks at an earlier state of the harness, `selftest/res_r1.json` and `res_r2.json`). "
-           "\"target\" is the property the change was written against; a check other than the target that fires is a sibling detection\n(the attribution rule of §10 makes checks report only findings that contradict their own statement, so siblings fire\nonly when the change really breaks their property too). Full per-change records: `seeded/<id>/meta.json` (`detected_by`,\n`first_finding`, `needs_to_manifest`).\n")
+out.append("Every row below was produced by `selftest/mutate.py` (through `selftest/final_matrix.sh` / `selftest/run_agents.py`): each change\napplied to a scratch copy of `/repo`'s root package, the pinned suite confirmed green, the demonstration confirmed to\nfail with the change and to pass without it, then the quick checks run against the copy (`VERIF_SEED=1`): **all 20\nchecks** for the own mutants and for sub-agent rounds 9 and 10, the checks of the target property's family (flow C01–C05,\nC10, C18, C19 / batch and pool C06–C09, C11, C12, C17, C20 / store C13–C16) for the other rounds — a full matrix of\nroughly 540 changes x 20 checks does not fit the time budget; rounds 1 and 2 were run against all 20 checks at an\nearlier state of the harness (`selftest/res_r1.json`, `res_r2.json`). Rounds 1–10 were run on the state of the checks\nafter round 10; rounds 11 and later were produced and closed while that run was under way and were run on the state\nof the checks at the end of their own round (nothing was removed from a check afterwards; the regressions on the real\ntree after each round are the evidence that nothing fires there). "
+           "\"target\" is the property the change was written against; a check other than the target that fires is a sibling detection\n(the attribution rule of §10 makes checks report only findings that contradict their own statement, so siblings fire\nonly when the change really breaks their property too). Full per-change records: `seeded/<id>/meta.json` (`detected_by`,\n`first_finding`, `needs_to_manifest`, `checks_run`).\n")
 rounds = collections.OrderedDict()
 for m in metas:
     rnd = m["id"].split("-")[0]
